@@ -410,7 +410,7 @@ class World:
     # SSH link, one channel message at a time
     def inflight(self, t):
         """names of the packets waiting to be read by SSH transport t"""
-        n = len(t.inq)
+        n = sum(1 for x in t.inq if isinstance(x, bytes))
         if n == 0:
             return []
         w = self.pk.get(id(t.peer.protocol), [])
@@ -418,10 +418,16 @@ class World:
 
     def deliver_msg(self, t):
         w = self.pk.get(id(t.peer.protocol), [])
-        n = len(t.inq)
-        types = w[-n:]
+        n = sum(1 for x in t.inq if isinstance(x, bytes))
+        if t.inq and not isinstance(t.inq[0], bytes):
+            t.deliver()             # the peer's end of the stream (EOF)
+            self.loop.run_until_idle()
+            return
+        types = w[-n:] if n else []
         size = 0
         for i, p in enumerate(types):
+            if not isinstance(t.inq[i], bytes):
+                break
             size += len(t.inq[i])
             if p != 2:
                 break
@@ -588,6 +594,10 @@ class World:
     def check_quiescent(self):
         """monitors that hold when nothing is in flight"""
         L, R = self.apps['L'], self.apps['R']
+        if not self.cut_done and (self.ct.closed or self.st.closed):
+            self.flag('ConnectionKept', 'the SSH connection was torn down '
+                      'by the traffic of a forwarded connection (nobody cut '
+                      'it): every forward on it is gone')
         clean = not self.refused and not self.resets and not self.cut_done
         if clean and R is None:
             self.flag('Complete', 'the open was not refused but the '
@@ -2423,8 +2433,10 @@ def record_natural(seed, kind='local', nconn=1, mode='mixed', window=None):
                 return
             if r < 0.62 and not app.fin_sent and nwrites < 6:
                 nwrites += 1
-                act_write(c, e, rng.choice([1, 2, 5, 17, 40] if 'tiny' in mode
-                                           else [1, 2, 17, 300, 1500, 4000]))
+                act_write(c, e, rng.choice(
+                    [1, 2, 5, 17, 40] if 'tiny' in mode else
+                    [700, 3000, 9000, 20000] if 'big' in mode else
+                    [1, 2, 17, 300, 1500, 4000]))
             elif r < 0.74 and not app.fin_sent:
                 act_eof(c, e)
             elif r < 0.84:
@@ -3062,6 +3074,75 @@ def replay_x11(steps, workdir, server_allows=True, unix_display=False,
         res['l1'] = list(w.l1)
         res['loop_exceptions'] = [repr(c.get('exception') or c.get('message'))
                                   for c in w.loop.exceptions]
+    finally:
+        w.stop()
+    return res
+
+
+def flow_case(kind, window=(4096, 1024), half='L', nwin=8, slow=True,
+              chunk=None):
+    """Flow control in play: end `half` sends a request and half-closes, the
+    other end then answers several channel windows (more than the socket
+    buffer when `slow`: the half-closed end does not read for a while, so the
+    relay pauses), WINDOW_ADJUST messages flow towards the side whose
+    receive direction already ended.  Monitors: RelayFIFO, HalfClose,
+    Complete, NoListenerLeft."""
+    w = World(kind, True, True, manual=False, window=window)
+    res = {'l1': [], 'info': {}, 'script': [['flow', kind, half, list(window),
+                                            slow]], 'diverged': None}
+    try:
+        w.start()
+    except asyncssh.ChannelOpenError as exc:
+        w.stop()
+        res['l1'] = [('Complete', f'open failed: {exc.reason}')]
+        return res
+    try:
+        loop = w.loop
+        if chunk:
+            for t in list(loop.net.transports):
+                t.chunker = lambda avail, c=chunk: c
+        other = 'R' if half == 'L' else 'L'
+        a, b = w.apps[half], w.apps[other]
+        if b is None or a is None:
+            res['l1'].append(('Complete', 'destination never connected'))
+            return res
+        req = bytes((i * 7 + 3) % 251 for i in range(window[0] + 300))
+        w.sent[half] += req
+        a.write(req)
+        a.write_eof()
+        loop.run_until_idle()
+        w.check_prefix()
+        if not b.eof_seen:
+            w.flag('HalfClose', f'{half} sent EOF but {other} never saw it')
+        can_pause = slow and isinstance(a, App)
+        if can_pause:
+            a.t.pause_reading()
+        total = max(nwin * window[0], 300000 if can_pause else 0)
+        piece = window[0] // 2 + 37
+        n = 0
+        while n < total:
+            data = bytes((n + i * 5) % 251 for i in range(piece))
+            w.sent[other] += data
+            b.write(data)
+            n += piece
+            loop.run_until_idle()
+        res['info']['received_while_paused'] = len(a.payload())
+        res['info']['writer_paused'] = getattr(b, 'paused', None)
+        if can_pause:
+            a.t.resume_reading()
+        loop.run_until_idle()
+        w.check_prefix()
+        if a.payload() != bytes(w.sent[other]):
+            w.flag('Complete', f'after {half} half-closed, {half} received '
+                   f'{len(a.payload())} of the {len(w.sent[other])} bytes '
+                   f'{other} sent (window {window[0]})')
+        b.write_eof()
+        loop.run_until_idle()
+        w.check_quiescent()
+        w.finish('close')
+        res['l1'] = list(w.l1)
+        res['loop_exceptions'] = w.loop_exceptions()
+        res['features'] = []
     finally:
         w.stop()
     return res
